@@ -45,6 +45,8 @@ template <template <class...> class Graph, typename EdgeLabel>
 Path findPathToVertexFromPredecessors(
     const Graph<EdgeLabel> &graph, VertexIndex source, VertexIndex destination,
     const Predecessors &distancesPredecessors) {
+    graph.assertVertexInRange(source);
+    graph.assertVertexInRange(destination);
     if (source == destination)
         return {source};
 
@@ -77,6 +79,8 @@ template <template <class...> class Graph, typename EdgeLabel>
 MultiplePaths findMultiplePathsToVertexFromPredecessors(
     const Graph<EdgeLabel> &graph, VertexIndex source, VertexIndex destination,
     const MultiplePredecessors &distancesPredecessors) {
+    graph.assertVertexInRange(source);
+    graph.assertVertexInRange(destination);
     if (source == destination)
         return {{source}};
 
@@ -131,6 +135,7 @@ MultiplePaths findMultiplePathsToVertexFromPredecessors(
 template <template <class...> class Graph, typename EdgeLabel>
 Predecessors findVertexPredecessors(const Graph<EdgeLabel> &graph,
                                       VertexIndex vertex) {
+    graph.assertVertexInRange(vertex);
     VertexIndex currentVertex = vertex;
     size_t verticesNumber = graph.getSize();
 
@@ -162,6 +167,8 @@ Predecessors findVertexPredecessors(const Graph<EdgeLabel> &graph,
 template <template <class...> class Graph, typename EdgeLabel>
 Path findGeodesics(const Graph<EdgeLabel> &graph, VertexIndex source,
                    VertexIndex destination) {
+    graph.assertVertexInRange(source);
+    graph.assertVertexInRange(destination);
     if (source == destination)
         return {source};
 
@@ -177,6 +184,7 @@ Path findGeodesics(const Graph<EdgeLabel> &graph, VertexIndex source,
 template <template <class...> class Graph, typename EdgeLabel>
 MultiplePredecessors findAllVertexPredecessors(const Graph<EdgeLabel> &graph,
                                                  VertexIndex vertex) {
+    graph.assertVertexInRange(vertex);
     VertexIndex currentVertex = vertex;
     size_t verticesNumber = graph.getSize();
 
@@ -219,6 +227,8 @@ MultiplePredecessors findAllVertexPredecessors(const Graph<EdgeLabel> &graph,
 template <template <class...> class Graph, typename EdgeLabel>
 MultiplePaths findAllGeodesics(const Graph<EdgeLabel> &graph,
                                VertexIndex source, VertexIndex destination) {
+    graph.assertVertexInRange(source);
+    graph.assertVertexInRange(destination);
     if (source == destination)
         return {{source}};
 
@@ -266,6 +276,9 @@ findAllGeodesicsFromVertex(const Graph<EdgeLabel> &graph, VertexIndex vertex) {
 template <typename Graph>
 std::pair<std::vector<EdgeWeight>, std::vector<VertexIndex>>
 findGeodesicsDijkstra(const Graph &graph, VertexIndex source) {
+    if (source >= graph.getSize())
+        throw std::out_of_range("Source vertex is not in the graph.");
+
     std::vector<EdgeWeight> distances(graph.getSize(), BASEGRAPH_INFINITY);
     distances[source] = 0;
     std::vector<VertexIndex> predecessors(graph.getSize(),
